@@ -101,7 +101,7 @@ typedef struct tmr {
 	_Atomic int hl, cfg_window; int gen_x;     /* publications so far: xchg(dt_pending_config, new) in dispatch_source_set_timer */
 	int take_th[MAXG], latch_th;               /* thread that took configuration g / that latched last (guarded by hl) */
 	/* directed re-set population (see directed_reset) */
-	_Atomic uint64_t inv_up[2], set_up, hret_up; _Atomic int cancelled_done; uint64_t slow_after_us; int chain;
+	_Atomic uint64_t inv_up[2], set_up, hret_up; _Atomic int cancelled_done; uint64_t slow_after_us; int chain, dir_how;
 	const void *dt;
 	op_t ops[MAXOPS]; int nops;
 	cfgspec_t first;
@@ -780,8 +780,9 @@ static void finish(uint64_t waited_ms)
  *     the process is the timerfd, and it is not set for this timer.  Lateness alone (threads runnable but not scheduled on a
  *     loaded machine) is never a violation: it is counted (dir_late_unproven);
  *   NeverEarly / CountBound / OnlyNewConfig: the ordinary exact oracles of source_handler (generation 2 is in force).
- * Variants (i mod 5): OLD 3 s..1 h with X = 40..150 ms (0: fast handler, 1: work before the re-set, 2: work after it, 3: X = now
- * or past), and 4: X longer than a short OLD interval (there the old expiry wakes the manager and repairs the schedule: only the
+ * Variants (i mod 7): OLD 3 s..1 h with X = 40..150 ms (0: fast handler, 1: work before the re-set, 2: work after it, 3: X = now
+ * or past; 5 / 6: the re-set is made after the handler returned, by a block on the timer's queue / by the main thread), and
+ * 4: X longer than a short OLD interval (there the old expiry wakes the manager and repairs the schedule: only the
  * ownership laws of TimerTrace.tla can see a deviation; the timing oracle stays valid).  A third of the rounds target a chain
  * of two serial queues. */
 #define DIR_SLACK_MS 400
@@ -798,7 +799,10 @@ static void gen_directed(void)
 		r->leeway_ns = rndin(0, 1) ? 0 : NSEC_PER_MSEC;
 		r->interval_ns = rndin(0, 99) < 20 ? 0 : rndin(30, 90) * NSEC_PER_MSEC + rndin(0, 999999);
 		t->inh_at = 1; t->slow_at = 0; t->nops = 0;
-		int v = i % 5;
+		int v = i % 7;
+		/* 5, 6: the handler only fires; afterwards the re-set comes from a block on the timer's own queue / from the main thread
+		 * (timer armed, nobody delivering it): the same obligation, the configuration has to travel to the manager */
+		if (v >= 5) { t->dir_how = v - 4; t->inh_at = 0; if (v == 6) t->own = 0; v = 0; }
 		/* (trace mode: microseconds since the base must fit 31 bits, also after target += interval) */
 		if (v <= 3) f->interval_ns = (rndin(0, 2) == 0 && !g_traceout ? 3600ull : rndin(3, 20)) * NSEC_PER_SEC + rndin(0, 999) * 1000;
 		if (v <= 2) r->delta_ns = (int64_t)(rndin(40, 150) * NSEC_PER_MSEC + rndin(0, 999999));
@@ -836,7 +840,7 @@ static void directed_reset(void)
 		uint64_t t0 = _dispatch_uptime();
 		dispatch_activate(t->ds);
 		atomic_fetch_add(&g_dir_rounds, 1);
-		int detectable = (i % 5) <= 3, dead = 0;
+		int detectable = (i % 7) != 4, dead = 0;
 		if (detectable) atomic_fetch_add(&g_dir_detectable, 1);
 		/* the first fire (old settings) and the re-set inside its handler */
 		while (!atomic_load(&t->hret_up) && !atomic_load(&g_fail)) {
@@ -847,6 +851,14 @@ static void directed_reset(void)
 				dead = 1; break;
 			}
 			usleep(w > 10000 ? 5000 : 300);
+		}
+		if (!dead && !atomic_load(&g_fail) && t->dir_how) {
+			cfgspec_t *sp = &t->inh_spec;
+			usleep((useconds_t)rndin(0, 3000));
+			if (t->dir_how == 1) dispatch_async(t->q, ^{ do_set(t, sp, 1); }); else do_set(t, sp, 0);
+			for (int k = 0; k < 20000 && atomic_load(&t->gen_done) < 2; k++) usleep(200);
+			if (_dispatch_unote_armed((dispatch_timer_source_refs_t)t->dt) || atomic_load(&t->inv_up[1])) atomic_fetch_add(&g_dir_reset_while_armed, 1);
+			atomic_store(&t->hret_up, 1);
 		}
 		if (!dead && !atomic_load(&g_fail)) {
 			cfgspec_t *r = &t->inh_spec;
@@ -859,9 +871,12 @@ static void directed_reset(void)
 				if (nowu > due + DIR_SLACK_MS * NSEC_PER_MSEC) {
 					if (quiescent() && !atomic_load(&t->inv_up[1])) {
 						if (wall_stepped(&t->cfgs[2])) { atomic_fetch_add(&g_dir_inconclusive, 1); dead = 1; break; }
-						oracle_fail(t, "FollowsNewSettings", "a repeating timer that was still armed re-set itself from its own event handler (dispatch_source_set_timer, new start = "
-								"b us after the call) and has not been invoked a = ms after the new start although every other thread of the process sleeps and "
-								"nothing else is pending: the timerfd is not programmed for the new settings (the old schedule is still being followed)",
+						static const char *const who[] = { "re-set itself from its own event handler", "was re-set by a block on its own target queue", "was re-set by another thread" };
+						static char msg[600];
+						snprintf(msg, sizeof(msg), "a repeating timer that was still armed %s (dispatch_source_set_timer, new start = b us after the call) and has not been "
+								"invoked a = ms after the new start although every other thread of the process sleeps and nothing else is pending: the timerfd is "
+								"not programmed for the new settings (the old schedule is still being followed)", who[t->dir_how]);
+						oracle_fail(t, "FollowsNewSettings", msg,
 								(_dispatch_uptime() - due) / NSEC_PER_MSEC, (uint64_t)x / 1000);
 						dead = 1; break;
 					}
